@@ -25,7 +25,7 @@ FUEL = 40
 
 def keymap():
     from prompt_toolkit.keys import Keys
-    return {0: Keys.Any, 1: "a", 2: "b", 3: "c", 4: "d", 5: Keys.ControlX, 6: Keys.CPRResponse}
+    return {0: Keys.Any, 1: "a", 2: "b", 3: "c", 4: "d", 5: Keys.ControlX, 6: Keys.CPRResponse, 7: Keys.SIGINT}
 
 
 _APP = None
@@ -139,6 +139,11 @@ class CountingDeque(deque):
 
     def popleft(self):
         r = self.run
+        if r.in_reentry:
+            # process_keys() called from inside a handler: the item it takes is discarded with the rest of the queue
+            x = super().popleft()
+            r.reentry_pops.append(x)
+            return x
         if r.sends >= r.fuel:
             raise Abort()
         r.sends += 1
@@ -162,6 +167,25 @@ class CountingDeque(deque):
             # _process hands the pending keys back (application finished); the front of the queue is then reversed(items)
             r.on_back(list(reversed(items)))
         super().extendleft(items)
+
+
+class ObsList(list):
+    """KeyProcessor.key_buffer with its deletions observed: `del buffer[:1]` with no handler call and no
+    hand-back since the previous deletion is a drop - seen here, not inferred"""
+
+    def __init__(self, it=(), run=None):
+        super().__init__(it)
+        self.run = run
+
+    def __delitem__(self, idx):
+        gone = self[idx] if isinstance(idx, slice) else [self[idx]]
+        r = self.run
+        owner, r.del_owner = r.del_owner, None
+        if owner is None:
+            r.obs_drops.extend(r.RK.get(k.key, -7) for k in gone)
+        elif owner[0] == "call" and len(gone) != owner[1]:
+            r.obs_drops.append(-8)       # keys removed after a handler call are not its key_sequence
+        super().__delitem__(idx)
 
 
 class KPRun:
@@ -192,7 +216,21 @@ class KPRun:
             reg = DynamicKeyBindings(lambda: kb)
         elif wrap == 3:
             reg = ConditionalKeyBindings(merge_key_bindings([KeyBindings(), kb]), True)
-        self.p = KeyProcessor(reg)
+        run = self
+        self.del_owner = None     # who accounts for the next deletion from key_buffer: ("call", n) / ("back",) / None = a drop
+        self.obs_drops = []
+
+        class ObsKP(KeyProcessor):
+            # reset() assigns `self.key_buffer = []` before it starts the generator, which keeps that very list
+            @property
+            def key_buffer(self_):
+                return self_._c04_buffer
+
+            @key_buffer.setter
+            def key_buffer(self_, v):
+                self_._c04_buffer = ObsList(v, run)
+
+        self.p = ObsKP(reg)
         # observation state
         self.stream = []      # keys popped since the last reset
         self.accounted = 0
@@ -210,6 +248,8 @@ class KPRun:
         self.cpr_calls = []
         self.done_pops = []
         self.in_handler = False
+        self.in_reentry = False
+        self.reentry_pops = []
         self.watchdog_s = 10
         self.raise_info = None
 
@@ -261,6 +301,10 @@ class KPRun:
         if pos < self.accounted:
             self.events.append([9, self.accounted - pos])     # a key seen twice: never equals a model event
             return pos
+        if self.accounted < 0:
+            # only after a reset that did not empty key_buffer: more keys pending than were received since
+            self.events.append([9, -self.accounted])
+            self.accounted = 0
         for j in range(self.accounted, pos):
             self.events.append([1, self.stream[j]])
             self.drops.append({"key": self.stream[j], "buffer": self.stream[j:], "env": list(self.env.v[:self.nenv]),
@@ -276,6 +320,7 @@ class KPRun:
         keys = [self.from_item(x) for x in items]
         self.events.append([3, keys])
         self.backs.append({"handed_back": keys, "buffer": bufsnap, "pending_in_input_order": self.stream[pos:]})
+        self.del_owner = ("back",)
         self.since_pop += 1
         self.accounted = pos + len(bufsnap)
 
@@ -300,6 +345,7 @@ class KPRun:
                                "flush": self.last_item_flush, "first_pass": self.since_pop == 0,
                                "pos": pos, "prev_end": self.accounted, "stream": list(self.stream)})
             self.events.append([0, idx, ks])
+            self.del_owner = ("call", len(ks))
             self.since_pop += 1
             self.accounted = pos + len(ks)
             for a in acts:
@@ -318,6 +364,18 @@ class KPRun:
                     except Exception:
                         self.raise_info = (bufsnap[len(ks):], [self.from_item(x) for x in p.input_queue])
                         raise HandlerError()
+                elif a[0] == 4:
+                    # the handler calls process_keys() itself
+                    self.raise_info = (bufsnap[len(ks):], [self.from_item(x) for x in p.input_queue])
+                    self.in_reentry = True
+                    try:
+                        p.process_keys()
+                    except ValueError as x:
+                        if "generator already executing" not in str(x):
+                            raise
+                        raise HandlerError()
+                    finally:
+                        self.in_reentry = False
 
         def cpr_body(event, bufsnap):
             # called by _handle_cpr_response: not a key delivery
@@ -354,7 +412,8 @@ class KPRun:
         self.op_records = []
         p = self.p
         for its in self.ops:
-            if len(its) == 1 and its[0] <= -2:
+            sigint = its == [-1001]
+            if len(its) == 1 and its[0] <= -2 and not sigint:
                 if its[0] == -1000:
                     # the application is finished from outside a handler
                     if not self.app.is_done:
@@ -376,15 +435,18 @@ class KPRun:
             if not isinstance(p.input_queue, CountingDeque):
                 p.input_queue = CountingDeque(p.input_queue, self)
             self.events, self.popped, self.sends, self.raise_info = [], [], 0, None
+            self.del_owner, self.obs_drops = None, []
             ncalls0 = len(self.calls)
             ndrops0 = len(self.drops)
             ncpr0 = len(self.cpr_calls)
             nbacks0 = len(self.backs)
             done0 = self.app.is_done
-            p.feed_multiple([self.to_item(k) for k in its])
+            if not sigint:
+                p.feed_multiple([self.to_item(k) for k in its])
             status = 0
             try:
-                with_watchdog(p.process_keys, self.watchdog_s)
+                # send_sigint = feed(KeyPress(Keys.SIGINT), first=True) + process_keys()
+                with_watchdog(p.send_sigint if sigint else p.process_keys, self.watchdog_s)
             except HandlerError:
                 status = 1
             except Abort:
@@ -418,7 +480,8 @@ class KPRun:
                                     "cpr_calls": self.cpr_calls[ncpr0:], "cpr_broken": list(self.cpr_broken), "done_pops": list(self.done_pops), "env_for_pending": self.env_for_pending,
                                     "after_raise": after_raise, "last_flush": self.last_item_flush,
                                     "since_pop": self.since_pop, "stream": list(self.stream),
-                                    "accounted": self.accounted, "items": its})
+                                    "accounted": self.accounted, "items": its,
+                                    "obs_drops": list(self.obs_drops), "buffer_observed": isinstance(p.key_buffer, ObsList)})
             if status in (98, 99):
                 break
         return out
@@ -504,6 +567,12 @@ def kp_oracle(case, recs):
                     return ("a key was dropped although a prefix of the pending keys had an active match", "rule-drop", d)
             if any(b_longer(x, bd) and feval(x[1], e) for _, x in ib) and not (d["flush"] and d["first_pass"]):
                 return ("a key was dropped while a longer active binding was still possible (no flush)", "rule-wait", d)
+        if "obs_drops" in r:
+            inferred = [ev[1] for ev in r["events"] if ev[0] == 1]
+            if not r["buffer_observed"] or r["obs_drops"] != inferred:
+                return ("the keys physically removed from key_buffer without a handler call are not exactly the keys that were "
+                        "received and neither delivered, handed back nor left pending (a key was lost or duplicated)",
+                        "conservation", {"op": n, "removed_without_handler": r["obs_drops"], "unaccounted": inferred})
         if any(ev[0] == 9 for ev in r["events"]):
             return ("pending keys exceed the keys received (a key was duplicated)", "conservation", {"op": n, "events": r["events"]})
         if r["status"] == 1:
@@ -632,12 +701,54 @@ def fl_oracle(recs):
 # --------------------------------------------------------------------------
 # family 3: registries
 
+_REAL_MX = None
+
+
+def real_maxsizes():
+    """maxsize of the two SimpleCaches of a fresh KeyBindings, read from the real object (never a copied constant)"""
+    global _REAL_MX
+    if _REAL_MX is None:
+        from prompt_toolkit.key_binding.key_bindings import KeyBindings
+        kb = KeyBindings()
+        _REAL_MX = [kb._get_bindings_for_keys_cache.maxsize, kb._get_bindings_starting_with_keys_cache.maxsize]
+        if not all(isinstance(x, int) and x > 0 for x in _REAL_MX):
+            raise RuntimeError("unexpected SimpleCache sizes in KeyBindings: %r" % (_REAL_MX,))
+    return list(_REAL_MX)
+
+
+class capped:
+    """run the real registries with other SimpleCache sizes: every SimpleCache the key_bindings module creates
+    (KeyBindings.__init__, hence every wrapper's _bindings2) gets maxsize mx[0] / mx[1] instead of the real
+    pair; the class is the real SimpleCache (its get/clear run unchanged)"""
+
+    def __init__(self, mx):
+        self.mx = list(mx)
+
+    def __enter__(self):
+        import prompt_toolkit.key_binding.key_bindings as KBM
+        from prompt_toolkit.cache import SimpleCache
+        real = real_maxsizes()
+        self.KBM, self.orig = KBM, KBM.SimpleCache
+        if self.mx != real:
+            m = {real[0]: self.mx[0], real[1]: self.mx[1]}
+
+            class Capped(SimpleCache):
+                def __init__(self, maxsize=8):
+                    super().__init__(maxsize=m[maxsize])      # an unknown size: KeyError, fail closed
+            KBM.SimpleCache = Capped
+
+    def __exit__(self, *a):
+        self.KBM.SimpleCache = self.orig
+        return False
+
+
 class RegRun:
     def __init__(self, case):
         from prompt_toolkit.key_binding.key_bindings import (ConditionalKeyBindings, DynamicKeyBindings,
                                                              GlobalOnlyKeyBindings, KeyBindings, merge_key_bindings)
-        _, nc, objs, ops = case
+        _, nc, objs, ops, mx = case
         self.nc = nc
+        self.mx = mx
         self.KM = keymap()
         self.RK = {v: k for k, v in self.KM.items()}
         self.env = Env([0] * nc)
@@ -692,6 +803,52 @@ class RegRun:
             if b[7] != 0:
                 kw["save_before"] = self.saver(b[7])
         return kw
+
+    def ver(self, i, v):
+        """canonical form of object i's version value v (what Model enc_ver prints)"""
+        t = self.desc[i][0]
+        if t == 0:
+            return [0, v] if isinstance(v, int) else [-7, repr(v)]
+        if v == ():
+            return [1]
+        if t in (1, 4):
+            return self.ver(self.desc[i][1], v)
+        if t == 2:
+            kids = self.desc[i][1]
+            if not isinstance(v, tuple) or len(v) != len(kids):
+                return [-7, repr(v)]
+            return [1] + [self.ver(k, x) for k, x in zip(kids, v)]
+        if not (isinstance(v, tuple) and len(v) == 2):
+            return [-7, repr(v)]
+        ident, x = v
+        if ident == id(self.objs[i]._dummy):
+            return [2, i, [0, x]]
+        for j, o in enumerate(self.objs):
+            if id(o) == ident:
+                return [2, j, self.ver(j, x)]
+        return [-7, "unknown id"]
+
+    def ckeys(self, cache):
+        ks = [[self.RK.get(k, -7) for k in key] for key in reversed(cache._keys)]      # newest first
+        if set(cache._data) != set(cache._keys) or len(cache._data) != len(cache._keys):
+            ks.append([-7])
+        return ks
+
+    def state(self):
+        """version / _last_version and the keys held by the SimpleCaches, object by object"""
+        out = []
+        for i, o in enumerate(self.objs):
+            t = self.desc[i][0]
+            if t == 0:
+                out.append([self.ver(i, o._version), self.ckeys(o._get_bindings_for_keys_cache),
+                            self.ckeys(o._get_bindings_starting_with_keys_cache)])
+            elif t == 3:
+                out.append([])
+            else:
+                b2 = o._bindings2
+                out.append([self.ver(i, o._last_version), self.ckeys(b2._get_bindings_for_keys_cache),
+                            self.ckeys(b2._get_bindings_starting_with_keys_cache)])
+        return out
 
     def canon(self, b):
         return [[self.RK.get(k, -7) for k in b.keys], getattr(b.handler, "_c04", -7),
@@ -783,6 +940,16 @@ class RegRun:
                 out.append([99])
                 recs.append({"op": op, "exc": repr(e)})
                 break
+        else:
+            try:
+                st = self.state()
+            except Exception as e:  # noqa  (an object without the expected attributes: never equals the model's state)
+                st = [[-7, repr(e)[:80]]]
+            out.append([50, st])
+            real = real_maxsizes()
+            for i, x in enumerate(st):
+                if x and len(x) == 3 and (len(x[1]) > self.mx[0] or len(x[2]) > self.mx[1]):
+                    recs.append({"op": ["state", i], "bound": [len(x[1]), len(x[2])], "maxsize": self.mx})
         return out, recs
 
 
@@ -790,6 +957,8 @@ def reg_oracle(recs):
     for r in recs:
         if "exc" in r:
             return ("registry operation raised " + r["exc"], "crash", r)
+        if "bound" in r:
+            return ("a SimpleCache holds more entries than its maxsize", "cache-bound", r)
         if "got" in r and r["got"] != r["spec"]:
             return ("lookup through the registry differs from recomputation over the current binding lists", "cache",
                     {"op": r["op"], "got": r["got"], "expected": r["spec"]})
@@ -945,6 +1114,38 @@ def gen_keyproc(chk, dist):
                     cases.append([1, [e0], bs, [[k] for k in s], FUEL])
                     wraps.append(0)
                     dist["keyproc_small_scope"] += 1
+    # (a2) send_sigint, small scope: every pair from a pool of <sigint> bindings x every sequence over
+    # {a, sigint(), Flush, exit} up to length 3 (the SIGINT key press goes to the FRONT of the queue: visible when
+    # keys were handed back / left in the queue because the application is finished)
+    spool = [[[7], [0], [1], 0, 0, []], [[7], [0], [1], 0, 0, [[3]]], [[7], [0], [1], 0, 0, [[1]]], [[1, 7], [0], [1], 0, 0, []],
+             [[7, 1], [0], [1], 0, 0, []], [[0], [0], [1], 0, 0, []], [[1], [0], [1], 0, 0, [[3], [2, 0, [1, 1]]]], [[1, 1], [0], [1], 0, 0, []],
+             [[7], [2, 0], [0], 0, 0, [[2, 1, [1]]]], [[1], [0], [1], 0, 0, [[2, 0, [7]]]]]
+    sseqs = []
+    for n in range(1, 4):
+        sseqs += [list(s) for s in itertools.product([1, -1001, -1, -1000], repeat=n) if -1001 in s]
+    for a in spool:
+        for b in spool:
+            for s in sseqs:
+                if thorough or rng.random() < 0.25:
+                    cases.append([1, [1], [a, b], [[k] for k in s], FUEL])
+                    wraps.append(0)
+                    dist["keyproc_sigint_small_scope"] += 1
+    # (a3) re-entry, small scope: handlers that call process_keys() (alone, after feeding, before/after exit) x item
+    # sequences fed in one go (so the queue is not empty when the handler runs) or one by one
+    rpool = [[[1], [0], [1], 0, 0, [[4]]], [[1], [0], [1], 0, 0, [[2, 1, [2]], [4]]], [[1], [0], [1], 0, 0, [[4], [0, 0]]],
+             [[1], [0], [1], 0, 0, [[3], [4]]], [[1, 2], [0], [1], 0, 0, [[4]]], [[0], [2, 0], [1], 0, 0, [[0, 0], [4]]],
+             [[2], [0], [1], 0, 0, []], [[2], [0], [1], 0, 0, [[2, 0, [1]]]], [[1, 1], [0], [0], 0, 0, [[4]]], [[2, 2], [0], [1], 0, 0, []]]
+    rseqs = []
+    for n in range(1, 4):
+        rseqs += [list(s) for s in itertools.product([1, 2, -1], repeat=n)]
+    for a in rpool:
+        for b in rpool:
+            for s in rseqs:
+                for mode in (0, 1):
+                    if thorough or rng.random() < 0.15:
+                        cases.append([1, [1], [a, b], [list(s)] + [[2]] if mode == 0 else [[k] for k in s], FUEL])
+                        wraps.append(0)
+                        dist["keyproc_reentry_small_scope"] += 1
     # (b) structured random
     n = 60000 if thorough else 8000
     for _ in range(n):
@@ -954,14 +1155,30 @@ def gen_keyproc(chk, dist):
         cpr = rng.random() < 0.3
         fx = (6, 6) if cpr else ()       # handlers may feed cursor position reports too
         bs = [rand_binding(rng, i, alpha, feed_extra=fx) for i in range(nb)]
+        if not cpr and rng.random() < 0.2:
+            # a handler that calls process_keys() itself, at some point of its action list
+            for b in rng.sample(bs, rng.choice([1, 1, 2]) if len(bs) > 1 else 1):
+                b[5].insert(rng.randint(0, len(b[5])), [4])
+            dist["keyproc_reentry"] += 1
         if cpr:
             # cursor position reports: bindings on exactly (CPRResponse,), sometimes longer/wildcard ones around
             for j in range(rng.choice([1, 1, 2])):
                 b = rand_binding(rng, len(bs), alpha, feed_extra=fx)
                 b[0] = rng.choice([[6], [6], [6], [6, 1], [0]])
                 bs.append(b)
+        sig = rng.random() < 0.25
+        if sig:
+            # KeyProcessor.send_sigint(): bindings on <sigint> (exact, longer, wildcard), also ones that exit / feed / raise
+            for j in range(rng.choice([1, 1, 2])):
+                b = rand_binding(rng, len(bs), alpha, feed_extra=fx)
+                b[0] = rng.choice([[7], [7], [7], [7, 1], [1, 7], [0]])
+                bs.append(b)
         ops = []
         for _ in range(rng.randint(1, 12)):
+            if sig and rng.random() < 0.2:
+                ops.append([-1001])
+                dist["keyproc_sigint_ops"] += 1
+                continue
             if rng.random() < 0.08:
                 ops.append([-2 - rng.randrange(NCOND)] if rng.random() < 0.9 else [-1000])
                 continue
@@ -1072,7 +1289,7 @@ def gen_registry(chk, dist):
                 ops.append([5, rng.randrange(n), rng.choice([[], [1], [0], [2], [1, 2], [0, 0]])])
             else:
                 ops.append([6, rng.randrange(n)])
-        cases.append([3, NCOND, objs, ops])
+        cases.append([3, NCOND, objs, ops, real_maxsizes()])
         dist["registry_random"] += 1
     # a caching wrapper over a DynamicKeyBindings that is switched between registries whose version
     # counters coincide (the id() component of the dynamic version matters exactly here)
@@ -1104,8 +1321,98 @@ def gen_registry(chk, dist):
                 ops.append([rng.choice([5, 6]), rng.choice([top, 3])] + ([[rng.choice([1, 0])]] if False else []))
                 if ops[-1][0] == 5:
                     ops[-1].append(rng.choice([[], [1]]))
-        cases.append([3, NCOND, objs, ops])
+        cases.append([3, NCOND, objs, ops, real_maxsizes()])
         dist["registry_dynamic_switch"] += 1
+    cases += gen_registry_round6(chk, dist)
+    return cases
+
+
+def gen_registry_round6(chk, dist):
+    rng = chk.rng
+    thorough = chk.tier == "thorough"
+    cases = []
+    real = real_maxsizes()
+    # (c) small scope, exhaustive: one fixed store with every kind of wrapper; every sequence of up to 3 mutations
+    # from a pool (add plain / add Binding object / remove by handler / remove by keys / dynamic switch); all
+    # wrappers are looked at before the first mutation (caches and _last_version filled) and DIRECTLY after each
+    # one: both prefix lookups (get_bindings_starting_with_keys) and an exact one
+    objs = [[0], [0], [1, 0, [2, 0]], [2, [0, 1]], [3, [0, 1]], [4, 3], [2, [2, 4]], [4, 4], [1, 4, [3, [2, 1]]]]
+    wrappers = list(range(2, len(objs)))
+    ba = [[1], [0], [1], 1, 0, []]
+    bab = [[1, 2], [2, 0], [1], 0, 1, []]
+    bany = [[0, 2], [0], [2, 1], 1, 2, []]
+    pre = [[1], [2, 1], [0], 1, 2, [], 0, 1]
+    muts = [[0, 0, ba], [0, 0, bab], [0, 1, ba], [0, 1, bany], [7, 1, pre, [[1, 1], [0], [1], 0, 0, []]],
+            [2, 0, 0], [2, 1, 0], [1, 0, [1]], [1, 1, [0, 2]], [3, 4, 0], [3, 4, 1], [3, 4, -1]]
+    probe = []
+    for w in wrappers:
+        probe += [[5, w, []], [5, w, [1]], [4, w, [1]]]
+    probe_ab = [[4, w, [1, 2]] for w in wrappers]
+    seqs = []
+    for n in (1, 2, 3):
+        seqs += [list(x) for x in itertools.product(range(len(muts)), repeat=n)]
+    for sq in seqs:
+        if len(sq) == 3 and not thorough and rng.random() > 0.25:
+            continue
+        ops = list(probe)
+        for j, m in enumerate(sq):
+            ops.append(muts[m])
+            ops += probe if j % 2 == 0 else probe + probe_ab
+        cases.append([3, NCOND, objs, ops, real])
+        dist["registry_small_scope"] += 1
+    # (d) SimpleCache eviction: the real SimpleCache class with small maxsize values (1..3) in every KeyBindings and
+    # every wrapper's _bindings2; many distinct keys so that entries are evicted, looked up again, re-entered
+    kpool = [[1], [2], [0], [1, 2], [1, 0], [0, 2], [1, 2, 1], [0, 0], [2, 2], [3], [], [2, 1]]
+    for _ in range(12000 if thorough else 1500):
+        mx = rng.choice([[1, 1], [2, 1], [1, 2], [2, 3], [3, 2], [3, 3]])
+        if real[0] == real[1]:
+            mx = [mx[0], mx[0]]      # the two caches cannot be told apart by their size: cap both alike
+        nkb = rng.choice([1, 2])
+        objs = [[0] for _ in range(nkb)]
+        for _ in range(rng.choice([0, 1, 2, 3])):
+            n = len(objs)
+            t = rng.choice([1, 2, 3, 4])
+            objs.append([1, rng.randrange(n), rand_f(rng, 1)] if t == 1 else [2, [rng.randrange(n) for _ in range(rng.choice([1, 2]))]] if t == 2
+                        else [3, [rng.randrange(n) for _ in range(rng.choice([1, 2]))]] if t == 3 else [4, rng.randrange(n)])
+        n = len(objs)
+        dyns = [i for i, o in enumerate(objs) if o[0] == 3]
+        ops = []
+        for _ in range(rng.randint(4, 30)):
+            r = rng.random()
+            if r < 0.12:
+                b = rand_binding(rng, rng.randrange(3), (1, 2), acts=False)
+                b[0] = rng.choice(kpool[:9])
+                b[3] = 1 if rng.random() < 0.7 else 0
+                ops.append([0, rng.randrange(nkb), b])
+            elif r < 0.16:
+                ops.append([2, rng.randrange(nkb), rng.randrange(3)])
+            elif r < 0.2 and dyns:
+                d = rng.choice(dyns)
+                ops.append([3, d, rng.randint(-1, len(objs[d][1]) - 1)])
+            else:
+                tgt = rng.randrange(n) if rng.random() < 0.7 else rng.randrange(nkb)
+                ops.append([rng.choice([4, 4, 5]), tgt, rng.choice(kpool)])
+        cases.append([3, NCOND, objs, ops, mx])
+        dist["registry_eviction"] += 1
+    # (e) the real maxsize: more distinct prefix lookups than the prefix cache holds (and, thorough tier, more exact
+    # lookups than the exact cache holds), then the first keys again
+    def distinct_keys(n):
+        out, ln = [], 1
+        while len(out) < n:
+            out += [list(t) for t in itertools.product([1, 2, 3, 4, 5], repeat=ln)]
+            ln += 1
+        return out[:n]
+    for which, size in ((5, real[1]), (4, real[0])):
+        if size > 1500 and not thorough:
+            continue
+        if size > 30000:
+            continue
+        ks = distinct_keys(size + 2)
+        for tgt in (0, 1):
+            ops = [[0, 0, [[1, 2], [0], [1], 1, 0, []]], [0, 0, [[0, 0, 0], [0], [1], 1, 1, []]]]
+            ops += [[which, tgt, k] for k in ks] + [[which, tgt, ks[0]], [which, tgt, ks[1]], [which, tgt, ks[-1]]]
+            cases.append([3, 1, [[0], [2, [0]]], ops, real])
+            dist["registry_real_maxsize"] += 1
     return cases
 
 
@@ -1130,8 +1437,9 @@ def impl_case(case, wrap=0):
     if fam == 4:
         out, recs = gd_impl(case)
         return out, gd_oracle(recs)
-    r = RegRun(case)
-    out, recs = r.run()
+    with capped(case[4]):
+        r = RegRun(case)
+        out, recs = r.run()
     return out, reg_oracle(recs)
 
 
@@ -1163,7 +1471,8 @@ def main(tier):
         return chk.finish()
 
     t0 = time.time()
-    dist = {"keyproc_small_scope": 0, "keyproc_random": 0, "filters_small_scope": 0, "filters_random": 0,
+    dist = {"keyproc_small_scope": 0, "keyproc_random": 0, "keyproc_sigint_small_scope": 0, "keyproc_sigint_ops": 0, "keyproc_reentry": 0, "keyproc_reentry_small_scope": 0,
+            "registry_eviction": 0, "registry_small_scope": 0, "registry_real_maxsize": 0, "filters_small_scope": 0, "filters_random": 0,
             "registry_random": 0, "registry_dynamic_switch": 0, "global_dynamic": 0}
     kp_cases, wraps = gen_keyproc(chk, dist)
     fl_cases = gen_filters(chk, dist)
@@ -1172,7 +1481,9 @@ def main(tier):
     cases = corpus + kp_cases + fl_cases + rg_cases
     wraps = [0] * len(corpus) + wraps + [0] * (len(fl_cases) + len(rg_cases))
     # a malformed stream: the model must answer bad_case, never an implementation result
-    malformed = [[1, [0], "x", [], 5], [7], [2, 99, []], [3, 1, [[1, 0, [0]]], []], [1, [0], [[[], [0], [1], 0, 0, []]], [], 5]]
+    malformed = [[1, [0], [[[6], [0], [1], 0, 0, [[4]]]], [[1]], 5],      # re-entry together with cursor position reports: outside the model
+                 [1, [0], "x", [], 5], [7], [2, 99, []], [3, 1, [[1, 0, [0]]], [], [10000, 1000]], [1, [0], [[[], [0], [1], 0, 0, []]], [], 5],
+                 [3, 1, [[0]], [], [0, 5]], [3, 1, [[0]], []]]
 
     timing["generate"] = round(time.time() - t0, 1)
     t0 = time.time()
@@ -1256,19 +1567,22 @@ def main(tier):
         "(keys, handler, filter truth table, eager truth table, is_global, record_in_macro, save_before identity); (4) a real "
         "GlobalOnlyKeyBindings over a KeyBindings whose bindings have a dynamic is_global filter: adds, condition flips, .bindings; bindings are added as plain "
         "functions and as pre-built Binding objects (key_binding decorator). non-trivial = some handler fired / some operator "
-        "applied / some lookup returned a binding; distinct by hash of the whole case" % ("6%" if chk.tier == "thorough" else "0.3%"))
+        "applied / some lookup returned a binding; distinct by hash of the whole case. Round 6: KeyProcessor.send_sigint() as an op, handlers that call "
+        "process_keys() themselves, registry small scope (fixed store with every wrapper kind x every sequence of <= 3 mutations, all wrappers "
+        "probed with prefix and exact lookups before and directly after each), SimpleCache eviction (small maxsize, and the real maxsize "
+        "exceeded), version/_last_version and the keys held by every SimpleCache compared at the end of each registry history" % ("6%" if chk.tier == "thorough" else "0.3%"))
     chk.assumptions += [
-        "handler effects are data (flip condition / feed keys / raise / app.exit()); a handler that re-enters process_keys or mutates the registry is outside the model",
+        "handler effects are data (flip condition / feed keys / raise / app.exit() / call process_keys() again); a handler that mutates the registry is outside the model, and so is re-entry combined with cursor position reports (the decoder rejects such cases)",
         "the timeout is the explicit _Flush item; the asyncio timer (_start_timeout) is disabled (timeoutlen=None)",
-        "is_global is a constant per binding; SimpleCache eviction (10000/1000 entries) is not modelled; id() reuse after garbage collection (DynamicKeyBindings version) is not modelled",
+        "is_global is a constant per binding; SimpleCache eviction is modelled with the two maxsize values read from the real KeyBindings (%r) and, in the eviction family, the real SimpleCache class capped at 1..3 entries by patching the name SimpleCache in key_binding.key_bindings; id() reuse after garbage collection (DynamicKeyBindings version) is not modelled" % (real_maxsizes(),),
         "KeyPressEvent.arg/is_repeat, macro recording, undo save points, vi cursor fix-up are outside the model",
         "app.is_done / event.app.exit() are driven by a hand-made pending asyncio future put on an Application that is never run (harness new_application_run); the real run_async life cycle is not exercised",
         "cursor position reports: the oracle demands only the property text (pending keys untouched, receiver = last-registered most specific active match); that wildcard bindings never receive a report, is_repeat, the repetition argument and the previous-key bookkeeping are checked against the model only (they rest on the docstring of _handle_cpr_response, not on the property text)",
-        "dropped keys are not observable directly: the harness infers them as keys popped that are neither delivered nor pending, positioned by the buffer snapshot each handler takes"]
+        "dropped keys are observed (KeyProcessor.key_buffer is an instrumented list: a deletion with no handler call / hand-back since the previous one is a drop) AND inferred (keys popped that are neither delivered nor pending, positioned by the buffer snapshot each handler takes); the two must agree (oracle clause conservation)"]
     return chk.finish()
 
 
-KN = {0: "Any", 1: "a", 2: "b", 3: "c", 4: "d", 5: "c-x", 6: "<cursor-position-response>", -1: "<Flush>"}
+KN = {0: "Any", 1: "a", 2: "b", 3: "c", 4: "d", 5: "c-x", 6: "<cursor-position-response>", 7: "<sigint>", -1: "<Flush>"}
 
 
 def f_str(f):
@@ -1290,13 +1604,15 @@ def explain(case, wrap=0):
         print("conditions c0.. = %r; registry = KeyBindings%s" % (case[1], {0: "", 1: " behind merge_key_bindings", 2: " behind DynamicKeyBindings",
                                                                             3: " behind ConditionalKeyBindings(merge([empty, kb]), True)"}[wrap]))
         for i, b in enumerate(case[2]):
-            acts = ["flip c%d" % a[1] if a[0] == 0 else ("raise" if a[0] == 1 else "event.app.exit()" if a[0] == 3 else "feed_multiple(%r, first=%r)" % ([KN.get(k, k) for k in a[2]], bool(a[1])))
+            acts = ["flip c%d" % a[1] if a[0] == 0 else ("raise" if a[0] == 1 else "event.app.exit()" if a[0] == 3 else "event.key_processor.process_keys()" if a[0] == 4 else "feed_multiple(%r, first=%r)" % ([KN.get(k, k) for k in a[2]], bool(a[1])))
                     for a in b[5]]
             print("  binding #%d: kb.add(%s, filter=%s, eager=%s) handler does: %s" % (
                 i, ", ".join(repr(KN[k]) for k in b[0]), f_str(b[1]), f_str(b[2]), "; ".join(acts) or "nothing"))
         for o in case[3]:
             if o == [-1000]:
                 print("  then app.exit() is called from outside a handler")
+            elif o == [-1001]:
+                print("  then key_processor.send_sigint()")
             elif len(o) == 1 and o[0] <= -2:
                 print("  then condition c%d flips (outside any handler)" % (-2 - o[0]))
             else:
@@ -1315,6 +1631,7 @@ def explain(case, wrap=0):
         for o in case[2]:
             print("  " + {0: "Condition(c%s)", 1: "Always()", 2: "Never()", 3: "#%s & #%s", 4: "#%s | #%s", 5: "~#%s"}[o[0]] % tuple(o[1:]))
     else:
+        print("SimpleCache sizes (exact lookups, prefix lookups) = %r; real ones: %r" % (case[4], real_maxsizes()))
         for i, o in enumerate(case[2]):
             t = o[0]
             d = ("KeyBindings()" if t == 0 else "ConditionalKeyBindings(#%s, %s)" % (o[1], f_str(o[2])) if t == 1 else
@@ -1354,6 +1671,7 @@ def replay(data):
         explain(case, wrap)
     except Exception as e:  # noqa
         print("(case not explainable: %r)" % (e,))
+    print("a registry history ends with [50, per object [version or _last_version, keys in the exact-lookup cache, keys in the prefix cache]]" if case[0] == 3 else "", end="")
     print("per op: [status, events (0 i keys = handler of binding #i called; 1 k = key dropped; 2 = exception, discarded buffer/queue; 3 = keys handed back to the queue; 4 = pop; 5 = handler feed; 6 i = cursor position report delivered to binding #i; 7 = report taken from the queue after is_done), popped, key_buffer, input_queue, conditions, is_done, [previous handler, previous key sequence]]"
           if case[0] == 1 else "")
     for r in out:
